@@ -33,7 +33,7 @@ type Config struct {
 	Alloc        string `json:"alloc"`   // mem | dev
 	Index        string `json:"index"`   // mem | dev
 	Policy       string `json:"policy"`  // immutable | mutable
-	Factory      string `json:"factory"` // cas (validating reads) | raw (bytes as stored)
+	Factory      string `json:"factory"` // cas (validating reads) | raw (bytes as stored) | ac (Action Cache: contents are ActionResult messages, reads fail when they no longer parse)
 	Old          int    `json:"old"`
 	Cur          int    `json:"cur"`
 	New          int    `json:"new"`
@@ -76,6 +76,24 @@ func Content(cid, size int) []byte {
 var digestFunction = digest.MustNewFunction("", remoteexecution.DigestFunction_SHA256)
 
 // DigestOf returns the CAS digest of data under the given instance name.
+// ContentAC is Content for Action Cache stores: a valid serialized ActionResult of exactly size bytes (size 1
+// does not exist: the caller must not ask for it) that consists of one unknown field, so that it survives
+// unmarshalling and marshalling unchanged.  Flipping the low bits of its first byte yields an invalid wire type.
+func ContentAC(cid, size int) []byte {
+	switch {
+	case size == 0:
+		return []byte{}
+	case size == 1:
+		panic("no ActionResult is one byte long")
+	case size == 2:
+		return []byte{13<<3 | 0, byte(1 + cid)} // field 13, varint
+	case size == 3:
+		return []byte{13<<3 | 0, 0x80 | byte(1+cid), 0x01} // field 13, two-byte varint
+	}
+	body := Content(cid, size-3)
+	return append([]byte{0x82, 0x01, byte(size - 3)}, body...) // field 16, length-delimited
+}
+
 func DigestOf(instance string, data []byte) digest.Digest {
 	sum := sha256.Sum256(data)
 	return digest.MustNewDigest(instance, remoteexecution.DigestFunction_SHA256, hex.EncodeToString(sum[:]), int64(len(data)))
@@ -84,12 +102,12 @@ func DigestOf(instance string, data []byte) digest.Digest {
 // ---- event log ---------------------------------------------------------------
 
 type Log struct {
-	mu  sync.Mutex
-	seq int
-	W   *hx.Writer
-	Mem []map[string]any
-	cur string // process released last by the cooperative scheduler ("" if unknown)
-	muted bool // set when the simulated machine / process died: nothing after that instant is observable
+	mu    sync.Mutex
+	seq   int
+	W     *hx.Writer
+	Mem   []map[string]any
+	cur   string // process released last by the cooperative scheduler ("" if unknown)
+	muted bool   // set when the simulated machine / process died: nothing after that instant is observable
 }
 
 // Mute stops recording: whatever the goroutines do while they are being torn
@@ -338,6 +356,8 @@ func New(cfg Config, log *Log, sc *sched.Sched) *Store {
 	switch cfg.Factory {
 	case "raw":
 		base = rawFactory{}
+	case "ac":
+		base = blobstore.ACReadBufferFactory
 	default:
 		base = blobstore.CASReadBufferFactory
 	}
